@@ -44,7 +44,7 @@ def run(ctx, res):
             ex = [c for i, c in enumerate(ex) if (i // 2 + i) % 2 == 0]
         else:
             ex = R.exhaustive_cases(3, 4, hints=hints) + R.exhaustive_cases(4, 2)[len(R.exhaustive_cases(3, 2)):]
-        rnd = [R.gen_case(rng) for _ in range(ctx.n(3200, 30000))]
+        rnd = [R.gen_case(rng) for _ in range(ctx.n(3200, 12000))]
     rp = R.replay_cases(ctx)
     if rp:                      # --replay: only the recorded case(s), re-run on the current implementation
         ex, rnd = [], rp
